@@ -11,12 +11,14 @@ import (
 	"reflect"
 	"strconv"
 	"testing"
+	"time"
 
 	"github.com/DATA-DOG/go-sqlmock"
 	"github.com/gotid/god/internal/verifdrv"
 	"github.com/gotid/god/internal/verifsql"
 	"github.com/gotid/god/lib/breaker"
 	"github.com/gotid/god/lib/logx"
+	"github.com/gotid/god/lib/timex"
 )
 
 // ---------------------------------------------------------------- transactions
@@ -404,35 +406,44 @@ func verifSameShape(a, b reflect.Type) bool {
 	return true
 }
 
-func verifOrmCase(c verifCase) any {
+// verifOrmDest builds the destination (pointer handed to the query method) of case c.
+func verifOrmDest(c verifCase) (reflect.Value, string) {
 	et := verifElemType(c.Shape.E)
 	if c.Decl != "" {
 		// a DECLARED destination type (see verifDecl): it must have the shape the case describes
 		dt, ok := verifDecl(c.Decl)
 		if !ok {
-			return map[string]any{"error": "unknown declared type " + c.Decl}
+			return reflect.Value{}, "unknown declared type " + c.Decl
 		}
 		if !verifSameShape(dt, et) {
-			return map[string]any{"error": "declared type " + c.Decl + " does not have the case's shape"}
+			return reflect.Value{}, "declared type " + c.Decl + " does not have the case's shape"
 		}
 		et = dt
 	}
-	var dest reflect.Value // pointer handed to the query method
 	if c.Shape.D == "slice" {
 		if c.Shape.Ptr {
-			dest = reflect.New(reflect.SliceOf(reflect.PointerTo(et)))
-		} else {
-			dest = reflect.New(reflect.SliceOf(et))
+			return reflect.New(reflect.SliceOf(reflect.PointerTo(et))), ""
 		}
-	} else {
-		dest = reflect.New(et)
+		return reflect.New(reflect.SliceOf(et)), ""
 	}
+	return reflect.New(et), ""
+}
 
+func verifOrmCase(c verifCase) any {
+	dest, bad := verifOrmDest(c)
+	if bad != "" {
+		return map[string]any{"error": bad}
+	}
 	db, mock, err := sqlmock.New()
 	if err != nil {
 		return map[string]any{"error": err.Error()}
 	}
 	defer db.Close()
+	return verifOrmQuery(c, dest, db, mock, NewConnFromDB(db))
+}
+
+// verifOrmQuery runs the query of case c into dest on the given conn (whose sqlmock is mock).
+func verifOrmQuery(c verifCase, dest reflect.Value, db *sql.DB, mock sqlmock.Sqlmock, conn Conn) any {
 	rows := sqlmock.NewRows(c.Cols)
 	for _, r := range c.Rows {
 		vals := make([]driver.Value, len(r))
@@ -448,7 +459,6 @@ func verifOrmCase(c verifCase) any {
 		}
 		rows.AddRow(vals...)
 	}
-	conn := NewConnFromDB(db)
 	ctx := context.Background()
 	d := dest.Interface()
 
@@ -596,6 +606,82 @@ func verifOrmCase(c verifCase) any {
 	return out
 }
 
+// verifStreamCase: a run of queries that all hit an EMPTY result on ONE conn with its real breaker
+// (virtual clock, so that the whole run lies in the breaker's window), then the `final` query for an
+// existing row on the same conn. Reports the status of every query of the run.
+func verifStreamCase(raw json.RawMessage) any {
+	var c struct {
+		Ops   []string  `json:"ops"` // "<row|rowp|rows|rowsp>:<int|st>"
+		Final verifCase `json:"final"`
+	}
+	if err := json.Unmarshal(raw, &c); err != nil {
+		return map[string]any{"error": err.Error()}
+	}
+	type T struct {
+		A int64  `db:"a"`
+		B string `db:"b"`
+	}
+	timex.VerifSetNow(time.Hour)
+	defer timex.VerifClockOff()
+
+	db, mock, err := sqlmock.New()
+	if err != nil {
+		return map[string]any{"error": err.Error()}
+	}
+	defer db.Close()
+	conn := NewConnFromDB(db) // breaker.New(): the real googleBreaker
+
+	st := make([]string, 0, len(c.Ops))
+	for _, op := range c.Ops {
+		mock.ExpectQuery("select").WillReturnRows(sqlmock.NewRows([]string{"a", "b"}))
+		var qerr error
+		panicked, _ := verifdrv.Catch(func() {
+			switch op {
+			case "row:int":
+				qerr = conn.QueryRow(new(int64), "select 1")
+			case "rowp:int":
+				qerr = conn.QueryRowPartial(new(int64), "select 1")
+			case "rows:int":
+				qerr = conn.QueryRows(new([]int64), "select 1")
+			case "rowsp:int":
+				qerr = conn.QueryRowsPartial(new([]int64), "select 1")
+			case "row:st":
+				qerr = conn.QueryRow(new(T), "select 1")
+			case "rowp:st":
+				qerr = conn.QueryRowPartial(new(T), "select 1")
+			case "rows:st":
+				qerr = conn.QueryRows(new([]T), "select 1")
+			case "rowsp:st":
+				qerr = conn.QueryRowsPartial(new([]T), "select 1")
+			default:
+				qerr = fmt.Errorf("verif: unknown stream op %q", op)
+			}
+		})
+		switch {
+		case panicked:
+			st = append(st, "panic")
+		case qerr == nil:
+			st = append(st, "nil")
+		case verifSentinel(qerr) != "":
+			st = append(st, verifSentinel(qerr))
+		default:
+			st = append(st, "other")
+		}
+		if qerr == breaker.ErrServiceUnavailable {
+			// the rejected query never reached sqlmock: consume its expectation
+			if rows, e := db.Query("select 1"); e == nil {
+				rows.Close()
+			}
+		}
+		timex.VerifAdvance(time.Millisecond)
+	}
+	dest, bad := verifOrmDest(c.Final)
+	if bad != "" {
+		return map[string]any{"error": bad}
+	}
+	return map[string]any{"st": st, "final": verifOrmQuery(c.Final, dest, db, mock, conn)}
+}
+
 // TestVerifDriver interprets transaction scripts against a recording SQL driver and
 // query scripts (generated destination shapes x result sets) against sqlmock, through each
 // entry point family: conn, statement prepared on conn, transaction session, statement
@@ -612,6 +698,8 @@ func TestVerifDriver(t *testing.T) {
 			return verifTxCase(c)
 		case "orm":
 			return verifOrmCase(c)
+		case "stream":
+			return verifStreamCase(raw)
 		case "pair":
 			// two queries one after the other in this process: first, then second
 			var p struct {
